@@ -32,11 +32,35 @@ def _cm_cfgs():
         for fail_at in (None,) + tuple(range(1, depth + 1)):
             out.append({"depth": depth, "fail_at": fail_at})
     out += [{"depth": 1, "fail_at": 1, "exc": "base"}, {"depth": 2, "fail_at": 2, "exc": "base"}, {"depth": 3, "fail_at": 2, "exc": "base"}]
+    # a configuration object on which nothing has been set yet: the value to restore is the default taken from the environment
+    out += [{"depth": 1, "fail_at": None, "fresh": "1"}, {"depth": 2, "fail_at": 2, "fresh": "1"}, {"depth": 1, "fail_at": 1, "fresh": "0"}]
     return out
 
 
 def _get(I, cfgobj):
     return I.getattr(cfgobj, "free_arithmetics") if I is not None else cfgobj.free_arithmetics
+
+
+def _fresh_config(I, cls, value):
+    """a new _Config created with PHYST_FREE_ARITHMETICS=value in the environment"""
+    if I is not None:
+        saved = dict(I._environ.d)
+        I._environ.d["PHYST_FREE_ARITHMETICS"] = value
+        try:
+            o = Obj(cls)
+            I.call(I.getattr(cls, "__init__"), [o], {})
+            return o
+        finally:
+            I._environ.d = saved
+    saved = os.environ.get("PHYST_FREE_ARITHMETICS")
+    os.environ["PHYST_FREE_ARITHMETICS"] = value
+    try:
+        return cls()
+    finally:
+        if saved is None:
+            os.environ.pop("PHYST_FREE_ARITHMETICS", None)
+        else:
+            os.environ["PHYST_FREE_ARITHMETICS"] = saved
 
 
 @contract(CFG + ".enable_free_arithmetics", props=["C19"])
@@ -45,13 +69,19 @@ class _enable:
 
     def inputs(b):
         vals = [b.bool(f"v{i}") for i in range(1, b.cfg.depth + 1)]
-        return dict(self=b.module_attr("physt.config", "config"), init=b.bool("init"), values=vals)
+        fresh = getattr(b.cfg, "fresh", None)
+        init = b.bool("init") if fresh is None else (fresh == "1")
+        return dict(self=b.module_attr("physt.config", "config"), cls=b.module_attr("physt.config", "_Config"), init=init, values=vals)
 
     def invoke(I, fn, a, cfg):
         """nested `with config.enable_free_arithmetics(v_i):` blocks; the body at depth fail_at raises."""
         obs = {"inside": [], "after_each": [None] * cfg.depth}
+        fresh = getattr(cfg, "fresh", None)
+        if fresh is not None:
+            a.self = _fresh_config(I, a.cls, fresh)
         if I is not None:
-            I.setattr(a.self, "free_arithmetics", a.init)
+            if fresh is None:
+                I.setattr(a.self, "free_arithmetics", a.init)
             obs["keys_before"] = set(obj_dict(a.self))
             var_before = obj_dict(a.self).get("_free_arithmetics")
 
@@ -79,7 +109,8 @@ class _enable:
             obs["keys_after"] = set(obj_dict(a.self))
             obs["same_variable"] = obj_dict(a.self).get("_free_arithmetics") is var_before
             return obs
-        a.self.free_arithmetics = a.init
+        if fresh is None:
+            a.self.free_arithmetics = a.init
         obs["keys_before"] = set(vars(a.self))
         var_before = vars(a.self).get("_free_arithmetics")
 
@@ -101,7 +132,8 @@ class _enable:
         obs["after_each"][0] = a.self.free_arithmetics
         obs["keys_after"] = set(vars(a.self))
         obs["same_variable"] = vars(a.self).get("_free_arithmetics") is var_before
-        a.self.free_arithmetics = False
+        if fresh is None:
+            a.self.free_arithmetics = False
         return obs
 
     @ensures("inside_the_block_the_requested_value_is_seen")
